@@ -493,7 +493,7 @@ func init() {
 		[]Stage{en("c27batch", 16, 900, prm("len", 5))})
 
 	planTable["C28"] = enumPlan("exploration",
-		"Validation: empty/nil keys, reserved !badger! prefix (and near misses), key lengths 1 / 65000 / 65001, values at and over the value-log file size (disk) , banned and unbanned namespaces with NamespaceOffset 0 and 3 (keys shorter than, exactly at and beyond the namespace window), for Set and Delete, each placed between two valid writes of the same transaction: rejected writes leave the transaction usable and the good writes commit; accepted keys round-trip; banned keys are unreadable. Size accounting: for 1-3 entries, inline and pointer-sized, the last value size sweeping from 120 bytes below to 8 above maxBatchSize, with commit timestamps of 1, 3 and 19 digits (managed) and after 0 / 100 earlier commits (normal), plus the entry-count limit exactly: whenever every Set was accepted Commit must not return ErrTxnTooBig.",
+		"Validation: empty/nil keys, reserved !badger! prefix (and near misses), key lengths 1 / 65000 / 65001, values at and over the value-log file size (disk) , banned and unbanned namespaces with NamespaceOffset 0 and 3 (keys shorter than, exactly at and beyond the namespace window), for Set and Delete, each placed between two valid writes of the same transaction: rejected writes leave the transaction usable and the good writes commit; accepted keys round-trip; banned keys are unreadable. Size accounting: for 1-3 entries, inline and pointer-sized, the last value size sweeping from 120 bytes below to 8 above maxBatchSize, with commit timestamps of 1, 3 and 19 digits (managed) and after 0 / 100 earlier commits (normal), plus the entry-count limit exactly, and 100 accepted 2000-byte Sets in a transaction that stays open while other commits move the dynamic value threshold (VLogPercentile) from 32 to about 6000: whenever every Set was accepted Commit must not return ErrTxnTooBig. Three times maxBatchCount rejected writes to a banned namespace must leave the transaction's budget untouched (a valid write and Commit still succeed).",
 		"Boundary sweep is byte-exact around the limits that checkSize / sendToWriteCh apply.",
 		"nested enumeration; distinct = distinct (configuration, case)",
 		[]Stage{en("c28validate", 16, 90, nil)},
